@@ -138,6 +138,9 @@ class Air(object):
         self.frames = []            # every Frame, in order of transmission
         self.step = None            # harness-defined protocol step id
         self.local = None           # LocalTarget handed to listen()
+        self.enforce_lr = False     # a receiver drops frames longer than the LR it announced
+        self.lr = {'I': None, 'T': None}    # transport data limit announced by each side
+        self.oversize = 0           # frames dropped for that reason
         self.acm_device = False     # initiator device can sense in active mode
         self.active = False         # activated in active communication mode
         self.late = 0               # target waits that outlasted their timeout
@@ -313,6 +316,30 @@ class Air(object):
             if self.local is None and not self.tgt_done:
                 self._run_target()
 
+    LR_TABLE = (64, 128, 192, 254)
+
+    def _note_lr(self, frame):
+        """the length reduction values of ATR_REQ (PPi) / ATR_RES (PPt)"""
+        if frame.pdu != 'ATR':
+            return
+        try:
+            if frame.sender == 'I' and len(frame.body) > 15:
+                self.lr['I'] = self.LR_TABLE[(int(frame.body[15]) >> 4) & 3]
+            elif frame.sender == 'T' and len(frame.body) > 16:
+                self.lr['T'] = self.LR_TABLE[(int(frame.body[16]) >> 4) & 3]
+        except TypeError:
+            pass            # (symbolic header octets: C19 has its own obligations)
+
+    def _too_long(self, frame, receiver):
+        """enforce_lr: a device drops a DEP frame whose transport data is
+        longer than the LR it announced (what a real receiver buffer does)"""
+        if not self.enforce_lr or frame.pdu != 'DEP' or self.lr[receiver] is None:
+            return False
+        if frame.td_len > self.lr[receiver]:
+            self.oversize += 1
+            return True
+        return False
+
     def ini_exchange(self, data, timeout):
         with self.cv:
             if len(self.frames) >= self.max_frames:
@@ -322,6 +349,9 @@ class Air(object):
             frame = Frame('I', self.brty, bytearray(data), self.step)
             self.frames.append(frame)
             f = self._fault(frame)
+            self._note_lr(frame)
+            if self._too_long(frame, 'T'):
+                f = LOSE
             if f == LOSE or self.tgt_done:
                 CLOCK.sleep(timeout)
                 raise nfc.clf.TimeoutError("no response (request lost)")
@@ -337,6 +367,9 @@ class Air(object):
                 CLOCK.sleep(timeout)
                 raise nfc.clf.TimeoutError("no response (target silent)")
             f = self._fault(rsp)
+            self._note_lr(rsp)
+            if self._too_long(rsp, 'I'):
+                f = LOSE
             if f == LOSE:
                 CLOCK.sleep(timeout)
                 raise nfc.clf.TimeoutError("no response (response lost)")
